@@ -34,7 +34,7 @@ Atoms # atomic
     (d / 'lmp.data').write_text(data)
     frames = []
     for t in range(T_FRAMES):
-        frames.append('3\nframe %d\nLi %.6f 0.5 0.5\nLi 2.5 %.6f 3.5\nS 4.0 1.0 %.6f\n' % (t, 0.5 + 0.3 * t, 3.0 + 0.2 * t, 6.0 + 0.4 * t))
+        frames.append('3\nframe %d\nLi %.6f 0.5 0.5\nLi 2.5 %.6f 3.5\nS 4.0 1.0 %.6f\n' % (t, 0.5 + 2.4 * t, 3.0 - 1.7 * t, 6.0 + 0.6 * t))  # atoms leave the box
     (d / 'lmp.xyz').write_text(''.join(frames))
 
 
